@@ -209,6 +209,7 @@ def run(rep, tier, seed, replay):
     io = ltv.run_sharded(impl, cases)
     nontrivial = set()
     mism = 0
+    concrete, noise = [], []
     samples = []
     labels_seen = {}
     for i, case in enumerate(cases):
@@ -221,18 +222,33 @@ def run(rep, tier, seed, replay):
         if len(samples) < 4 and i % 1499 == 7:
             samples.append({"case": case[:300], "impl": o[:400]})
         viol = oracle(case, o)
+        # deadlock relative to the model: the model computes which threads finish under this schedule; an
+        # implementation run that leaves a thread unfinished and not enabled where the model finishes all of
+        # them is a concrete deadlock under exactly this schedule (the single-argument mutual cancel, which
+        # deadlocks in the model too, is not flagged)
+        mf = re.search(r"\| F (\d+) C", m)
+        of = re.search(r"\| F (\d+) C", o)
+        if mf and of and set(mf.group(1)) == {"1"} and set(of.group(1)) != {"1"}:
+            tail_toks = o.partition(" | ")[0].split()[-12:]
+            if tail_toks and all(t.endswith(":-") for t in tail_toks):
+                viol.append(("deadlock", "implementation deadlocks (threads finished: %s, nothing enabled) under a schedule on which the model finishes every thread" % of.group(1)))
         if m != o:
             mism += 1
             if viol:
                 kl, text = viol[0]
-                rep.violation("model and implementation differ AND the property fails on the implementation: " + text,
-                              case=case, model=m, impl=o, theorem="correspondence C17 (per-step log under the same schedule)", klass=kl)
+                concrete.append(("model and implementation differ AND the property fails on the implementation: " + text,
+                                 dict(case=case, model=m, impl=o, theorem="correspondence C17 (per-step log under the same schedule)", klass=kl)))
             else:
-                rep.violation("correspondence broken: model and implementation differ under this schedule (property oracle holds on it)",
-                              case=case, model=m, impl=o, theorem="correspondence C17 (per-step log under the same schedule)", found_input=False)
+                noise.append(("correspondence broken: model and implementation differ under this schedule (property oracle holds on it)",
+                              dict(case=case, model=m, impl=o, theorem="correspondence C17 (per-step log under the same schedule)", found_input=False)))
         else:
             for kl, text in viol:
-                rep.violation(text, case=case, model=m, impl=o, theorem="property oracle C17", klass=kl)
+                concrete.append((text, dict(case=case, model=m, impl=o, theorem="property oracle C17", klass=kl)))
+    seen_k = set()
+    ordered = [x for x in concrete if not (x[1]["klass"] in seen_k or seen_k.add(x[1]["klass"]))]
+    ordered += [x for x in concrete if x not in ordered][:12]
+    for text, kw in ordered + noise[:5]:
+        rep.violation(text, **kw)
     if not coq["ok"]:
         rep.violation("C17 proof obligations no longer check (%d/%d): %s %s" % (
             coq["discharged"], coq["obligations"], "; ".join(coq["lint"] + coq["bad_axioms"]), coq["log"][-1500:]),
